@@ -364,6 +364,7 @@ class SimDevice(object):
         self.on_host_packet = None  # optional callback(pkt)
         self.before_emit = None   # optional callback(pkt) -> may mutate bytes: returns replacement bytes or None
         self._remote_counter = 0
+        self.remote_restart = True    # False: adbd's socket ids go on counting across connections
         self.exclusive_sync = False   # one FileSync stream at a time: opening a second one kills the first (FAIL + CLSE, unsolicited)
         self.host_packets_seen = 0
         self.new_connection()
@@ -379,7 +380,8 @@ class SimDevice(object):
         self.wirebuf = bytearray()
         self.wire_pkt_left = 0     # bytes of the packet at the front of wirebuf not yet handed out
         self.wire_bounds = collections.deque()  # lengths of packets queued in wirebuf
-        self._remote_counter = 0   # (adbd numbers its streams per connection: the same remote ids come back after a re-connect)
+        if self.remote_restart:
+            self._remote_counter = 0   # the device numbers its streams from the start again (it was restarted, or counts per connection): the same remote ids come back after a re-connect
         self.connected = False     # CNXN exchanged
         self.host_maxdata = wire.HOST_MAXDATA
         self.host_banner = None
